@@ -131,10 +131,21 @@ Silent ==
     /\ SolverStep
     /\ UNCHANGED <<l, runs, verdict, expect, nrej>>
 
+(* C10 on the implementation's own id counter: renaming the clause for this head unification     *)
+(* must have taken at least one fresh id per variable name of the clause (`base` / `after` are  *)
+(* the engine's counter before and after the renaming).  A breach is reported (IDS) and the run  *)
+(* goes on: it need not change any answer.                                                        *)
+IdsOk == IF WillTryClause /\ "base" \in DOMAIN TEv /\ "after" \in DOMAIN TEv
+         THEN TEv.after - TEv.base >= Len(ClauseNames(CxClauses[TN.ruleIdx + 1]))
+         ELSE TRUE
+
 EventStep ==
     /\ verdict = "ok" /\ Emits /\ More
     /\ SolverStep
     /\ phase' # "outside"
+    /\ IF IdsOk THEN TRUE
+       ELSE PrintT(<<"IDS", [at |-> l, runs_ok |-> runs, event |-> ToJson(TEv),
+                             names |-> Len(ClauseNames(CxClauses[TN.ruleIdx + 1]))]>>)
     /\ IF WillTryClause
        THEN /\ TEv.e \in {"resolve", "headfail"}
             /\ TEv.key = KeyText(TN.goal.t)
